@@ -13,7 +13,7 @@ THEOREMS = ["Drand.Beacon." + t for t in [
     "append_inv", "flush_inv", "step_inv3", "run_inv3", "toy3_recoverSpec",
     "c03_distinct", "c03_duplicate_ignored", "c03_malformed_ignored",
     "tie_processPartial", "tie_aggregator_partial", "tie_aggregator_init", "tie_window", "tie_processPartial_guards",
-    "tie_aggregator_guards"]]
+    "tie_aggregator_guards", "tie_live_group_switch"]]
 TRUSTED = ["Lean 4 kernel; axioms per theorem under coverage.axioms",
            "cryptography is an oracle record; explicit hypotheses: RecoverSpec (if kyber's Recover returns a signature then at least t of the supplied partials verify "
            "under the supplied polynomial at pairwise distinct indices), SignedOnly + CollisionFreeOn (only for the wrong-round / wrong-previous-signature lemmas)",
